@@ -204,7 +204,7 @@ class Runner:
         lags = [1] if n == 1 else list(range(1, min(n, len(self.ref.enabled) + 2)))
         sm = r.summary()
         bailed_real = sm.get('exit') not in ('ok', 'error')
-        real = {'fail': r.rc != 0, 'content': self.norm(br.ser_content(st2))}
+        real = {'fail': r.rc != 0, 'content': self.norm(br.ser_content(st2), hide=bailed_real)}
         if not bailed_real:
             real.update({'nerr': int(sm.get('error_file', 0)), 'nio': int(sm.get('error_io', 0)), 'nsil': int(sm.get('error_data', 0))})
         first = None
@@ -219,7 +219,14 @@ class Runner:
             m = {'nerr': int(toks[1]), 'nsil': int(toks[2]), 'nio': int(toks[3]), 'bailed': toks[4] == '1', 'nfail': int(toks[5]), 'nlost': int(toks[6])}
             m['fail'] = (m['nerr'] + m['nsil'] + m['nio']) != 0
             i = toks.index('C'); j = toks.index('P', i)
-            m['content'] = self.norm(toks[i:j])
+            if int(toks[7]) == 0:
+                # no iteration completed: state->need_write (sync.c:1289) was never set after the save that precedes the loop, so
+                # nothing is written at exit: the content on disk is the pre-loop state = the model's input (stop = 0)
+                req0 = list(req); req0[7] = '0'
+                o0 = run_lines(self.model, [' '.join(req0)], shards=1)[0].split()
+                m['content'] = self.norm(o0[o0.index('C'):o0.index('P', o0.index('C'))], hide=bailed_real)
+            else:
+                m['content'] = self.norm(toks[i:j], hide=bailed_real)
             mp, _ = br.parse_parity(toks, j)
             agree = m['fail'] == real['fail'] and m['content'] == real['content'] and m['bailed'] == bailed_real and \
                 (bailed_real or (m['nerr'], m['nio'], m['nsil']) == (real['nerr'], real['nio'], real['nsil']))
@@ -246,16 +253,18 @@ class Runner:
             {'case': rep, 'real_content': ' '.join(real['content']), 'model_content': ' '.join(m['content']), 'request': ' '.join(req)[:6000]}, no_input=True)
 
     @staticmethod
-    def norm(t):
+    def norm(t, hide=False):
         """content tokens with info times reduced to presence and the hashes of non-BLK blocks hidden (a skipped CHG block
-        carries the hash of the new data, which the harness cannot name independently)"""
+        carries the hash of the new data, which the harness cannot name independently).  hide=True (runs that bailed): hide
+        them even when ZERO/INVALID -- on a fatal error the C has already copied the new hash into the CHG blocks of the disks
+        whose task was returned before the failing one (arrival order: C13), the model drops them"""
         t = list(t)
         out = []
         k = 0
         kinfo = t.index('INFO')
         while k < kinfo:
             if t[k] in ('g', 'p') and k + 2 < kinfo:
-                out += [t[k], t[k + 1], t[k + 2] if t[k + 2] in ('Z', 'I') else '?']
+                out += [t[k], t[k + 1], t[k + 2] if (t[k + 2] in ('Z', 'I') and not hide) else '?']
                 k += 3
             else:
                 out.append(t[k]); k += 1
